@@ -829,3 +829,45 @@ impl Modeled for MidSkip {
 		14
 	}
 }
+
+/// `index` and `skip` given as two separate attributes, in both orders, and among other attributes.
+#[derive(Encode, Decode, DecodeWithMemTracking, MaxEncodedLen, PartialEq, Debug, Clone)]
+pub enum SkipOrders {
+	#[codec(index = 5)]
+	#[codec(skip)]
+	A(u8),
+	B,
+	#[codec(skip)]
+	#[codec(index = 9)]
+	C,
+	D(u16),
+	/// documented
+	#[codec(index = 3)]
+	#[allow(dead_code)]
+	#[codec(skip)]
+	E { x: u32 },
+	F { #[codec(compact)] y: u64 },
+}
+impl Modeled for SkipOrders {
+	fn ty(d: usize) -> String {
+		"adt enum 6 1 5 - 1 p u8 0 - - 0 1 9 - 0 0 - - 1 p u16 1 3 - 1 p u32 0 - - 1 c u64".into()
+	}
+	fn val(&self, out: &mut String, c: bool) {
+		match self {
+			SkipOrders::B => out.push_str("V 0 L 0"),
+			SkipOrders::D(x) => write!(out, "V 1 L 1 n{}", x).unwrap(),
+			SkipOrders::F { y } => write!(out, "V 2 L 1 n{}", y).unwrap(),
+			_ => out.push('K'),
+		}
+	}
+	fn gen(g: &mut G) -> Self {
+		match g.rng.below(3) {
+			0 => SkipOrders::B,
+			1 => SkipOrders::D(u16::gen(g)),
+			_ => SkipOrders::F { y: u64::gen(g) },
+		}
+	}
+	fn min_len() -> usize {
+		1
+	}
+}
